@@ -86,6 +86,8 @@ type SessSpec struct {
 	Rollbacks    map[int]uint64 `json:"rollbacks,omitempty"`     // vb -> R: the first stream request of vb is answered ROLLBACK(R)
 	RollbackAt   map[int]int    `json:"rollback_at,omitempty"`   // vb -> which request (1-based) gets the ROLLBACK answer (default 1)
 	RollbackAlso map[int]int    `json:"rollback_also,omitempty"` // vb -> a second request index that is answered ROLLBACK(R) as well
+	// HoldConsAtStart: the consumer blocks inside its very first delivery (until "releasecons"); installed before Start()
+	HoldConsAtStart bool `json:"hold_cons_at_start,omitempty"`
 	// StaticMember: static membership (member, total) instead of 1/1
 	StaticMember [2]int `json:"static_member,omitempty"`
 	// FailoverOnLogFetch: vb -> n: right after the node answered the failover-log request that follows the vBucket's ROLLBACK
@@ -622,6 +624,9 @@ func RunSession(spec *SessSpec) *Trace {
 	tr.Cfg = cfg
 	cons := &hx.Consumer{Log: env.Log}
 	s.cons = cons
+	if spec.HoldConsAtStart {
+		s.consHold = make(chan struct{})
+	}
 	cons.OnEvent = func(d *hx.Delivered) {
 		s.pmu.Lock()
 		ch := s.consHold
@@ -1092,6 +1097,18 @@ func RunSession(spec *SessSpec) *Trace {
 			w0 := s.writeCount()
 			full.Commit()
 			env.Log.Add(evlog.Rec{K: "ctl.absorbedcommit", VB: -1, A: uint64(s.writeCount() - w0)})
+		case "extwrite": // another writer (a second member, an operator) stores a checkpoint for vBucket VB: seqno N, snapshot [N,N], current branch
+			vbw := uint16(st.VB)
+			uu := env.Sim.FailoverCopy(vbw)[0].UUID
+			seq := uint64(st.N)
+			switch spec.Backend {
+			case "mem":
+				s.md.Put(vbw, uu, seq, seq, seq)
+			case "cb":
+				doc := fmt.Sprintf(`{"checkpoint":{"snapshot":{"startSeqno":%d,"endSeqno":%d},"vbuuid":%d,"seqno":%d},"bucketUuid":"%s"}`, seq, seq, uu, seq, env.Sim.UUID)
+				env.Sim.PutDoc(fmt.Sprintf("_connector:cbgo:%s:checkpoint:%d", cfg.Dcp.Group.Name, st.VB), []byte("{}"), map[string]json.RawMessage{"cbgo": json.RawMessage(doc)})
+			}
+			env.Log.Add(evlog.Rec{K: "ctl.extwrite", VB: st.VB, Seq: seq, D: uu, B: seq, C: seq})
 		case "rebalancenowrite": // a rebalance (GET /rebalance) right after a completed save with nothing new: how many checkpoint writes does it cause?
 			w0 := s.writeCount()
 			are := env.Log.Count("eh.ARE")
